@@ -62,11 +62,30 @@ def harness(ctx, level, seed, n, outdir, extra='', corpus=None, binary='harness'
         return r2
     return r
 
+def _impl_panic(err):
+    """first line of a Go panic whose innermost frame (the first source line of the trace) is a file
+    of /repo — not a bug of the harness itself; None otherwise"""
+    m = re.search(r'^(panic: .*|fatal error: .*)$', err, re.M)
+    if not m:
+        return None
+    tail = err[m.end():]
+    f = re.search(r'^\t(/\S+\.go):\d+', tail, re.M)
+    if f and f.group(1).startswith('/repo/'):
+        return m.group(1)[:300]
+    return None
+
 def harness_failed(res, r):
     err = (r.stderr or r.stdout or '')
     if err.startswith('HANG:'):
         res.property_failures.append(dict(suite=res.name, case='(see the cases written so far in the suite output directory)',
                                           what='a statement never returned (the run was stopped by the timeout)', impl=err[:6000]))
+    elif _impl_panic(err):
+        # a Go panic raised in jrhy/s3db code outside any statement the harness could recover (a
+        # finalizer, a background goroutine): in a real host this aborts the process. The generator is
+        # deterministic: the command reproduces it.
+        res.property_failures.append(dict(suite=res.name, case='(generated histories: ' + str(getattr(r, 'args', ''))[:300] + ')',
+                                          what='the process hosting the extension is aborted by a Go panic raised in jrhy/s3db code: ' + _impl_panic(err),
+                                          impl=err[:3000]))
     else:
         res.mismatches.append(dict(suite=res.name, case='harness failed', impl=err[-2000:], model=''))
 
@@ -420,13 +439,15 @@ def register(prop, suites, assumptions=None):
 
 register('C07', [l0_suite(['order', 'layer', 'layerpair'], monitor=c07_monitor,
                           nontrivial_keys=c07_nontrivial),
-                 lambda ctx: l2_suite('faults', name='l2-faults', quick=60, thorough=1200)(ctx)],
+                 lambda ctx: l2_suite('faults', name='l2-faults', quick=60, thorough=1200)(ctx),
+                 lambda ctx: l2_suite('multi', native=False, name='l2-multi', quick=60, thorough=1500,
+                                      determined='a statement addressing a key returns something else than the rule fixes (a second INSERT of an equal key must be refused whatever its write time; equal keys address one row)')(ctx)],
          ['SQLite never passes NaN to a virtual table (it converts NaN to NULL)', 'int64 / binary64 value ranges'])
 register('C17', [l0_suite(['lww'], monitor=l0_determined('the merged value is not the one the kv rule fixes (latest time wins; a tombstone beats every value; the earliest tombstone is kept)', domain_only=True)),
-                 l1_suite(['plain', 'cb'], monitor=determined_result_monitor('kv package: a Get / cursor / Diff / TraceHistory result differs from what the rule fixes for this history'))],
+                 l1_suite(['plain', 'cb', 'json'], monitor=determined_result_monitor('kv package: a Get / cursor / Diff / TraceHistory result differs from what the rule fixes for this history'))],
          ['kv default configuration: int keys, string values; gob/JSON codecs are third-party'])
 register('C01', [l0_suite(['merge_rows', 'merge_values', 'merge_laws'], monitor=c01_laws_monitor),
-                 l1_suite(['rows'], monitor=c01_two_orders_monitor),
+                 l1_suite(['rows', 'plain'], monitor=c01_two_orders_monitor),
                  l1_suite(['rows'], name='l1f', quick=300,
                           monitor=determined_result_monitor('a reader that merges the committed versions (after a storage fault has cleared) sees other rows than the merge of those versions')),
                  lambda ctx: l2_suite('multi', native=False, extra_monitor=c02_monitor, name='l2-multi', quick=60, thorough=1500)(ctx)],
@@ -1278,7 +1299,8 @@ register('C14', [l1_suite(['rows', 'plain', 'cb'], name='l1f', quick=250,
                           monitor=chain(c14_monitor, mutation_order_monitor,
                                         determined_result_monitor('under a storage fault an operation neither failed nor returned the complete, correct result'))),
                  l2_suite('faults', name='l2-faults', quick=80, thorough=1500,
-                          determined='after storage faults a connection reads other rows than the statements that succeeded explain')],
+                          determined='after storage faults a connection reads other rows than the statements that succeeded explain'),
+                 l2_suite('deadline', name='l2-deadline', quick=1, thorough=1, native=False)],
          ['kv level: faults in the in-process store; SQL level: one-shot HTTP 403 answers of the S3 endpoint during a statement; hangs are bounded by the harness timeout'])
 # ---------------------------------------------------------------- C18 (node encryption)
 def c18_monitor(ctx, res, fn, case, impl, model, spec):
@@ -1527,4 +1549,4 @@ def l1s_suite(quick=400, thorough=20000):
 
 register('C03', [l1s_suite(), l1_suite(['rows', 'plain'], name='l1f', quick=120,
                                        monitor=chain(mutation_order_monitor, determined_result_monitor('an open that succeeded does not contain every version that was committed before it began')))],
-         ['requests are atomic; between two scheduling points only one client runs; reads of node objects (immutable, never deleted at this level) are not scheduling points'])
+         ['requests are atomic, a listing of current/ included (it fits one page: fewer than 1000 versions; a listing that needs several pages is not a snapshot, and an open racing with a merging commit could then miss a version — not explored); between two scheduling points only one client runs; reads of node objects (immutable, never deleted at this level) are not scheduling points'])
